@@ -107,6 +107,23 @@ def run(ck):
         if ok:
             bump("model_agrees")
 
+    # ---------------- programs outside the modelled fragment: `match` with stateful arms (predicates on the implementation only) ----
+    mviol = []
+    for src, r in match_stream(ck, iexe, 150 if quick else 2000, 8 if quick else 24, "C05"):
+        if 'crash' in r:
+            mviol.append(("harness process died (memory corruption / abort) while running an accepted program with `match`", src, {"rc": str(r['crash'])})); continue
+        if r.get("typecheck") != "ok":
+            bump("match_stream_rejected"); continue
+        bad = impl_layout_predicates(r.get('vm'), r.get('wasm'))
+        if bad:
+            mviol.append((bad[0][0] + " (program with `match`, outside the Coq fragment)", src, {"detail": bad[0][1]}))
+        else:
+            bump("match_stream_traces_checked_on_impl")
+            if r.get('vm') and r['vm'].get('skel') not in seen_sk and r['vm'].get('skel') != "[]":
+                seen_sk.add(r['vm']['skel'])
+    for what, src, det in mviol[:3]:
+        ck.violation(what, {"source": src, **det, "how": "echo '{\"src\":<source>,\"n\":N,\"state\":true}' | .cache/target/lang/debug/lmmm_run"})
+    viol = viol + [(w, None, d) for w, _, d in mviol]      # keeps the no-failing-input branches below quiet
     ck.coverage["evaluations"] = len(cases)
     ck.coverage["distinct_nontrivial"] = len(seen_sk)
     ck.coverage["samples_per_program"] = n_samples
@@ -117,7 +134,7 @@ def run(ck):
         p, rows = cases[i]
         ck.sample({"source": pp_prog(p), "classes": sorted(classes_of(p)),
                    "skeleton": (ires[i].get('wasm') or {}).get('skel') if 'crash' not in ires[i] else None})
-    for what, idx, det in viol[:5]:
+    for what, idx, det in [v for v in viol if v[1] is not None][:5]:
         p, rows = cases[idx]
         ck.violation(what, {"source": pp_prog(p), "n_samples": len(rows), "inputs": rows if p['inputs'] else None, **det,
                             "how": "echo '{\"src\":<source>,\"n\":N}' | .cache/target/lang/debug/lmmm_run   (built with --cfg mimium_verif)"})
